@@ -6,6 +6,7 @@ package generic
 // that prohibits "aux" from being a path element.
 
 import (
+	"fmt"
 	"sort"
 	"strings"
 	"sync"
@@ -356,6 +357,11 @@ func buildSpecKey(args slip.List) string {
 			b = append(b, 't')
 		} else {
 			b = append(b, a.Hierarchy()[0]...)
+			if inst, ok := a.(slip.Instance); ok {
+				// An instance made before its class was redefined keeps the
+				// old class, the name alone does not tell the two apart.
+				b = fmt.Appendf(b, "@%p", inst.Class())
+			}
 		}
 	}
 	return string(b)
